@@ -40,7 +40,7 @@ def startup(chk):
         params = prog.func(RUN).params()
         for i, a in enumerate(runcalls[0].args):
             kw[params[i]] = util.unparse(a)
-        if kw.get("configuration") != "options.CONFIGURATION":
+        if not (kw.get("configuration") or "").endswith(".CONFIGURATION"):
             chk.bad(rule, cli.qual, "run() is given %s as the configuration instead of the CONFIGURATION argument" % kw.get("configuration"), node=runcalls[0], stmt="cli-configuration")
         else:
             chk.ok(rule, cli.qual, "__main__ -> cli_run -> run(configuration=options.CONFIGURATION, ...)", node=runcalls[0])
@@ -174,6 +174,8 @@ def keep_alive(chk):
     for ext in (".yaml", ".yml", ".py", ".txt", "", ".pyc", ".json"):
 
         def decide(it, path, term, ext=ext):
+            if term[0] == "cmp" and term[1] in ("==", "!=") and term[3][0] == "sub" and "splitext" in show(term[3]) and term[2][0] == "const":
+                term = ("cmp", term[1], term[3], term[2])
             if term[0] == "cmp" and term[2][0] == "sub" and "splitext" in show(term[2]):
                 if term[1] == "in" and term[3][0] in ("tuple", "list", "set"):
                     return ext in [x[1] for x in term[3][1] if x[0] == "const"]
